@@ -2,6 +2,7 @@ mod util;
 mod bddprops;
 mod formula;
 mod parse;
+mod cli;
 mod watchdog;
 
 use std::io::Write;
@@ -29,6 +30,8 @@ fn main() {
         "C09" => formula::c09(&mut out, tier, &mut rng, &mut st),
         "C08" => parse::c08(&mut out, tier, &mut rng, &mut st),
         "C12" => parse::c12(&mut out, tier, &mut rng, &mut st),
+        "C10" => cli::c10(&mut out, tier, &mut rng, &mut st),
+        "C11" => cli::c11(&mut out, tier, &mut rng, &mut st),
         "C02" => bddprops::c02(&mut out, tier, &mut rng, &mut st),
         "C03" => bddprops::c03(&mut out, tier, &mut rng, &mut st),
         "C04" => bddprops::c04(&mut out, tier, &mut rng, &mut st),
